@@ -105,8 +105,13 @@ def one_case(binary, work, registry, ops, tail, saves, name="case"):
     for l in registry:
         sc.add(l)
     S.emit_placement(sc, [tuple(o) for o in ops], [tuple(o) for o in tail], saves, 0)
+    S.emit_dirty_probe(sc, [tuple(o) for o in ops] + [tuple(o) for o in tail], 0)
     rc, res, orc, err = run_script(binary, sc, work, name + ".txt")
     f = judge(sc, res)
+    pbad, _ = S.judge_dirty_probe(sc, res)
+    for tagbase, pos, w, miss, detail in pbad[:2]:
+        f.append((tagbase, "persisted-projection-changed-but-block-not-dirty",
+                  {"op_pos": pos, "op": list(w), "blocks": miss, "before_after": detail}))
     if rc != 0:
         f.append((0, "harness-crashed", {"rc": rc, "stderr": err[-400:]}))
     return f
@@ -240,6 +245,9 @@ def run(ctx):
             pl, exh = S.placements(len(ops), kmax, r, limit)
             exhaustive_hist += 1 if exh else 0
             S.emit_registry(sc, g)
+            # direct dirty oracle on this history (save after every op)
+            S.emit_dirty_probe(sc, ops + tail, (hist_no, "probe"))
+            cases[(hist_no, "probe")] = (list(g.lines), ops, tail, list(range(1, len(ops) + len(tail) + 1)))
             for pi, p in enumerate(pl):
                 S.emit_placement(sc, ops, tail, p, (hist_no, pi))
                 cases[(hist_no, pi)] = (list(g.lines), ops, tail, p)
@@ -248,6 +256,14 @@ def run(ctx):
             stats["history_ops_%s" % ("short" if nsteps < 12 else "long")] += len(ops)
         rc, res, orc, err = run_script(binary, sc, ctx.work, "gen%d.txt" % nsteps)
         fails = judge(sc, res, stats)
+        pbad, pn = S.judge_dirty_probe(sc, res)
+        stats["dirty_probe_steps"] += pn
+        for tagbase, pos, w, miss, detail in pbad[:3]:
+            fails.append((tagbase, "persisted-projection-changed-but-block-not-dirty",
+                          {"op_pos": pos, "op": list(w), "blocks": miss, "before_after": detail}))
+        mism = S.check_registries(sc, res)
+        if mism:
+            ctx.broken.append("generator/registry out of step: %s" % (mism[:2],))
         if rc != 0:
             ctx.broken.append("runner: h_store rc=%d %s" % (rc, err[-300:]))
         for tagbase, what, detail in fails:
